@@ -9,11 +9,23 @@ import core
 from corr.cuckoo import Recorder
 
 
+def custom_hash(key):
+    """a user-supplied hash function (the filters take `key -> int`): sha256-based, 64 bits, unrelated to FNV"""
+    import hashlib
+
+    data = key.encode("utf-8") if isinstance(key, str) else bytes(key)
+    return int.from_bytes(hashlib.sha256(b"cuckoo|" + data).digest()[:8], "big")
+
+
+def hash_arg(case):
+    return custom_hash if case.get("hash") == "custom" else None
+
+
 def make(case):
     from probables import CountingCuckooFilter, CuckooFilter
 
     cls = CountingCuckooFilter if case["kind"] == "cc" else CuckooFilter
-    return cls(capacity=case["cap"], bucket_size=case["b"], max_swaps=case["swaps"], expansion_rate=case["rate"], auto_expand=case["auto"], finger_size=case["fsz"])
+    return cls(capacity=case["cap"], bucket_size=case["b"], max_swaps=case["swaps"], expansion_rate=case["rate"], auto_expand=case["auto"], finger_size=case["fsz"], hash_function=hash_arg(case))
 
 
 def fingerprint(obj, key):
@@ -51,7 +63,7 @@ def walk(case, on_step):
                     cls = type(obj)
 
                     def f():
-                        new = cls.frombytes(bytes(obj))
+                        new = cls.frombytes(bytes(obj), hash_function=hash_arg(case))
                         new.fingerprint_size = case["fsz"]
                         new.auto_expand = case["auto"]
                         new.expansion_rate = case["rate"]
@@ -116,7 +128,9 @@ def gen_case(rng, counting=None, tiny=True, reload=True):
             ops.append(("expand",))
         elif reload:
             ops.append(("reload",))
-    return {"kind": kind, "cap": cap, "b": b, "swaps": swaps, "rate": rate, "auto": auto, "fsz": fsz, "ops": ops, "seed": rng.randrange(2**32), "keys": keys}
+    return {"kind": kind, "cap": cap, "b": b, "swaps": swaps, "rate": rate, "auto": auto, "fsz": fsz, "ops": ops, "seed": rng.randrange(2**32), "keys": keys,
+            # a user-supplied hash function in a third of the cases: every path has to use the configured one
+            "hash": rng.choice(["fnv", "fnv", "custom"])}
 
 
 def shrink_case(case, check):
